@@ -150,7 +150,7 @@ def _chain(facts, d):
             elif nm == 'Iterator::filter':
                 nxt.append((cur, conds + norm_literal(r, True)))
             elif nm == 'Iterator::filter_map':
-                o = _option_value(facts, r)
+                o = _option_value(facts, r) or _option_by_exits(facts, cl, (cur,))
                 if o is None:
                     return None
                 nxt.append((canon(o[0]), conds + o[1]))
@@ -189,8 +189,40 @@ def _option_value(facts, r):
     return None
 
 
+_CTX = [None]
+
+
+def _option_by_exits(facts, cl, args):
+    """a closure written `if c(x) { Some(v(x)) } else { None }` (any nesting): ONE Some exit; its payload and the literals that hold on every
+    path to it, both expressed over the caller's values"""
+    cx = _CTX[0]
+    body = IN.closure_body(facts, cl)
+    if cx is None or body is None or body.loops():
+        return None
+    somes = [(s, d) for s, d in cx.rets(body) if d[0] == 'agg' and d[1].endswith('Option::Some')]
+    nones = [(s, d) for s, d in cx.rets(body) if d[0] == 'agg' and d[1].endswith('Option::None')]
+    if len(somes) != 1 or len(somes) + len(nones) != len(cx.rets(body)):
+        return None
+    s, d = somes[0]
+    v = IN.closure_apply(facts, cl, args, dag=dict(d[2:]).get('0'))
+    if v is None:
+        return None
+    conds = []
+    for a, p in cx.guards(body, s.bb):
+        ca = IN.closure_apply(facts, cl, args, dag=a)
+        if ca is None:
+            return None
+        conds.append((canon(ca), p))
+    # literals implied by a stronger one of the same set (a..=b contains x  =>  a <= x, x <= b) are dropped
+    strong = [c for c in conds if c[0][0] == 'call' and str(c[0][1]).endswith('::contains')]
+    if strong:
+        conds = [c for c in conds if c in strong or c[0][0] not in ('le', 'lt')]
+    return (v, conds)
+
+
 def comprehensions(cx, b, d):
     """d: DAG of the vector (e.g. the return value)."""
+    _CTX[0] = cx
     out = []
     d = simplify(d)
     # ---- chain forms: collect(chain), or extend(vec, chain) somewhere on the spine
@@ -252,6 +284,7 @@ def reduction(cx, b, d):
     with src / elem / conds in the canonical comprehension form (see _chain), or None.
     Understood: `acc = init; for x in S { acc = acc + e(x) }` (also `+=`, `acc.max(e)`), `S.iter()..map(e).sum()`, `..max_by(cmp)` / `..min_by(cmp)` over a
     chain or over a collected chain."""
+    _CTX[0] = cx
     d = simplify(d)
     # ---- chain forms
     for pat, op in (('(call Iterator::sum $c)', 'sum'), ('(call Iterator::max_by $c $cmp)', 'max_by'), ('(call Iterator::min_by $c $cmp)', 'min_by')):
